@@ -9,6 +9,7 @@ configurations and both name spellings must agree with it (hence pairwise).
 """
 from __future__ import annotations
 
+import dns.btree
 import dns.btreezone
 import dns.name
 import dns.rdata
@@ -390,7 +391,94 @@ def run_readonly(case):
     return probs
 
 
+class SmallTZone(dns.btreezone.Zone):
+    """B-tree zone whose node maps use the smallest branching factor: a dozen names already
+    make a transaction split, steal from and merge tree nodes it shares with the published
+    version, which is what 'a rolled-back transaction leaves the zone as it was' rests on."""
+    map_factory = staticmethod(lambda: dns.btree.BTreeDict(t=3))
+
+
+class Boom(Exception):
+    pass
+
+
+def run_btshape(case):
+    """n-name B-tree zone (branching factor 3); one or two single-name operations in a
+    transaction that commits, rolls back or exits through an exception: content afterwards is
+    the model's (commit) or exactly the content before (otherwise)."""
+    n, rel, how = case["n"], case["relativize"], case["how"]
+    origin = dns.name.from_text("example.")
+    names = [dns.name.from_text("h%02d" % i, None) for i in range(n)]
+    a1, a2 = dns.rdata.from_text("IN", "A", "10.0.0.1"), dns.rdata.from_text("IN", "A", "10.0.0.2")
+    z = SmallTZone(origin, relativize=rel)
+    with z.writer(True) as txn:
+        txn.add(dns.name.empty, 10, dns.rdata.from_text("IN", "SOA", "m. r. 1 2 3 4 5"))
+        for nm in names:
+            txn.add(nm, 10, a1)
+    for pre in case.get("pre", ()):          # committed deletions first: nodes at minimum occupancy
+        with z.writer() as txn:
+            txn.delete(dns.name.from_text(pre, None))
+    base = zm.real_zone_snapshot(z)
+    exp = dict(base)
+    probs = []
+    try:
+        try:
+            with z.writer() as txn:
+                for kind, text in case["ops"]:
+                    nm = dns.name.from_text(text, None)
+                    key = (nm.derelativize(origin), int(dns.rdatatype.A), 0)
+                    if kind == "del":
+                        txn.delete(nm)
+                        exp.pop(key, None)
+                    elif kind == "add":
+                        txn.add(nm, 10, a2)
+                        old = exp.get(key)
+                        exp[key] = (10, frozenset([a2]) | (old[1] if old else frozenset()))
+                    else:
+                        txn.replace(nm, 10, a2)
+                        exp[key] = (10, frozenset([a2]))
+                inside = zm.zone_snapshot(list(txn.iterate_rdatasets()), origin, rel)
+                if inside != exp:
+                    probs.append(("btshape/read-your-writes", "content seen inside the transaction differs from the model: %s" % diff(exp, inside)))
+                if how == "rollback":
+                    txn.rollback()
+                elif how == "exception":
+                    raise Boom()
+        except Boom:
+            pass
+    except Exception as e:
+        probs.append(("btshape/" + crash_sig(e), "%s: %s" % (type(e).__name__, e)))
+        return probs
+    now = zm.real_zone_snapshot(z)
+    want = exp if how == "commit" else base
+    if now != want:
+        probs.append(("btshape/%s-content" % how, "zone after %s of %s differs: %s" % (how, case["ops"], diff(want, now))))
+    order = [k.derelativize(origin) for k in z.nodes.keys()]
+    if order != sorted(order):
+        probs.append(("btshape/iteration-order", "names not in canonical order after %s of %s" % (how, case["ops"])))
+    return probs
+
+
+def _btshape_task(task, col):
+    n, rel, pre = task
+    live = ["h%02d" % i for i in range(n) if "h%02d" % i not in pre]
+    singles = [("del", x) for x in live] + [("add", "h%02dx" % i) for i in range(-1, n)] + [("rep", x) for x in live[::3]]
+    txns = [(o,) for o in singles] + [(a, b) for a in singles[::4] for b in singles[1::5] if a[1] != b[1]]
+    for ops_ in txns:
+        for how in ("commit", "rollback", "exception"):
+            case = {"mode": "btshape", "n": n, "relativize": rel, "how": how, "ops": [list(o) for o in ops_], "pre": list(pre)}
+            probs = run_btshape(case)
+            col.count("evaluations")
+            col.count("btree_shape_cases")
+            col.outcome("btshape:" + (probs[0][0] if probs else "ok"))
+            col.nontrivial(("btshape", n, rel, pre, ops_, how))
+            for s_, w_ in probs:
+                col.violation("C10/" + s_, w_ + " [n=%d relativize=%s after deleting %s]" % (n, rel, list(pre)), case)
+
+
 def recheck(case):
+    if case["mode"] == "btshape":
+        return [("C10/" + s, w) for s, w in run_btshape(case)]
     if case["mode"] == "readonly":
         return [("C10/" + s, w) for s, w in run_readonly(case)]
     probs, _ = run_txn(case)
@@ -544,6 +632,18 @@ def run(ctx):
             tasks.append((init, history, depth, k, pa, ctx.quick))
     ctx.max("max_depth", max(d for _, _, d in states))
     ctx.pmap(_state_task, tasks, chunksize=4)
+    # B-tree shapes: every single-name (and a grid of two-name) transaction on small-branching-factor
+    # B-tree zones of every size up to the bound, also after committed deletions
+    sizes = ctx.pick(range(6, 20), range(6, 34))
+    bt_tasks = []
+    for n in sizes:
+        for rel in (True, False):
+            bt_tasks.append((n, rel, ()))
+            if n >= 9:
+                bt_tasks.append((n, rel, ("h01", "h04")))
+                bt_tasks.append((n, rel, ("h%02d" % (n - 2), "h%02d" % (n // 2))))
+    ctx.extra["btree_shape_sizes"] = [sizes[0], sizes[-1]]
+    ctx.pmap(_btshape_task, bt_tasks)
     if not ctx.quick:
         import itertools
         tri = [ops[i] for i in pair_q[::2]]
